@@ -550,6 +550,93 @@ SEEDS: list[tuple[str, ...]] = [
 ]
 
 
+def silent_device_runs(res: Result, only: str | None = None) -> int:
+    """A device that dies without a word (the TCP connection stays open, no more bytes): after the keepalive has given up, the client must
+    refuse work with a connection error and must accept - and complete - a fresh connect.  Histories with 0-3 answered pings before."""
+    from aioesphomeapi.core import APIConnectionError
+
+    from ..world import ConnWorld, mk
+
+    K = 10.0
+    n = 0
+    for noise in (False, True):
+        for answered in (0, 1, 2, 3):
+            for answer_kind in ("pong", "state"):
+                if answered == 0 and answer_kind == "state":
+                    continue
+                key = f"silent-device:{'noise' if noise else 'plain'}:{answered}-pings-answered-by-{answer_kind}"
+                if only is not None and key != only:
+                    continue
+                w = ConnWorld(client=True, noise=noise, keepalive=K, login=True)
+                stops: list[bool] = []
+                try:
+                    async def on_stop(expected: bool, _s: list[bool] = stops) -> None:
+                        _s.append(bool(expected))
+
+                    def connect(tag: str) -> None:
+                        w.spawn(tag, lambda: w.client.connect(on_stop=on_stop, login=True))
+                        w.drain()
+                        if w.outcome(tag) is not None:
+                            return
+                        sock = w.net.sockets[-1]
+                        w.io_connect(sock, 0)
+                        w.drain()
+                        if noise:
+                            w._fed = 0
+                            w.io_chunk(sock, w.noise_handshake_bytes())
+                            w.drain()
+                        w.io_chunk(sock, w.dframe(w.hello_resp()))
+                        w.drain()
+                        w.io_chunk(sock, w.dframe(w.connect_resp()))
+                        w.drain()
+
+                    connect("connect1")
+                    if w.outcome("connect1") != "ok":
+                        raise HarnessError(f"silent-device: connect failed {w.results}")
+                    sock = w.sock
+                    t = w.loop.time()
+                    for _ in range(answered):
+                        t += K
+                        w.run_timers(t)
+                        w.io_chunk(sock, w.dframe(mk("PingResponse") if answer_kind == "pong" else mk("SensorStateResponse", key=1, state=1.0)))
+                        w.drain()
+                        t += K
+                        w.run_timers(t)
+                    w.run_timers(t + 8 * K)
+                    n += 1
+                    d = {"harness": "c19-silent", "key": key}
+                    if stops != [False]:
+                        res.add(key, f"C19:wedged:the device went silent after {answered} answered pings; 8 keepalive intervals later the session has not "
+                                f"been given up (stop callback calls {stops})", d)
+                        continue
+                    sent0 = len(sock.sent)
+                    try:
+                        w.client.switch_command(1, True)
+                        res.add(key, "C19:work-accepted:a command was accepted after the session had been given up", d)
+                        continue
+                    except APIConnectionError:
+                        pass
+                    except Exception as e:  # noqa: BLE001
+                        res.add(key, f"C19:wrong-error:command after the session was given up raised {type(e).__name__}", d)
+                        continue
+                    if len(sock.sent) != sent0:
+                        res.add(key, "C19:work-written:the refused command still wrote bytes", d)
+                        continue
+                    if noise:
+                        import base64 as _b64
+
+                        from .. import noise_ref
+                        from ..world import seed_bytes
+
+                        w.ndev = noise_ref.NoiseDevice(w.psk, seed_bytes("eph2"), name=w.device_name)
+                    connect("connect2")
+                    if w.outcome("connect2") != "ok":
+                        res.add(key, f"C19:wedged:a fresh connect() after the silent death ended {w.outcome('connect2')}: {w.results.get('connect2')}", d)
+                finally:
+                    w.close()
+    return n
+
+
 def run(tier: str, seed: int) -> Result:
     res = Result("C19", "model_checking")
     q = tier == "quick"
@@ -573,6 +660,7 @@ def run(tier: str, seed: int) -> Result:
                                    "observations": v["observations"]})
         total.merge(st)
     sweep = surface_sweep(res)
+    sweep["silent_device_histories"] = silent_device_runs(res)
     if sweep["surface_methods"] < 40:
         raise HarnessError(f"vacuous surface sweep: {sweep}")
     need = {"session", "refused", "accepted", "work-refused", "work-accepted", "start-failed", "finish-failed"}
@@ -605,6 +693,11 @@ def run(tier: str, seed: int) -> Result:
 
 def replay(rp: dict[str, Any]) -> bool:
     d = rp["detail"]
+    if d.get("harness") == "c19-silent":
+        res = Result("C19", "model_checking")
+        silent_device_runs(res, only=d["key"])
+        print(d["key"], "->", [v.clause for v in res.violations] or "holds")
+        return not res.violations
     if "stage" in d:
         res = Result("C19", "model_checking")
         surface_sweep(res)
